@@ -12,9 +12,13 @@ from .. import cnf_templates as ct
 from .. import semantics
 
 
+_DISPATCH_NAME = ['_operations']
+
+
 def run(ck: Checker):
     repo = ck.repo
     mod, fn, dict_node, table = ct.find_operations(ck)
+    _DISPATCH_NAME[0] = getattr(dict_node, '_dispatch_name', '_operations')
     max_nary = 4 if ck.tier == 'quick' else 6
 
     # ---- C05.REG ---------------------------------------------------------
@@ -161,7 +165,7 @@ def _alloc_and_unit(ck: Checker, mod, fn):
              'process_gate does not start with `if label in saved_lits: return saved_lits[label]`',
              construct='process_gate early return')
     # handler call
-    hcalls = [c for c in calls_in(pg) if isinstance(c.func, ast.Subscript) and is_name(c.func.value, '_operations')]
+    hcalls = [c for c in calls_in(pg) if isinstance(c.func, ast.Subscript) and is_name(c.func.value, _DISPATCH_NAME[0])]
     ck.need(len(hcalls) >= 1, f'{mod.rel}: handler dispatch call not found in process_gate')
     ck.check(len(hcalls) == 1 and mod.parents[mod.enclosing_stmt(hcalls[0])] is pg, R, mod, hcalls[0],
              'the handler is called exactly once, unconditionally', f'{len(hcalls)} dispatch call sites / nested under a condition')
